@@ -73,6 +73,12 @@ type RoundLifecycle struct {
 
 	CommitWaitElapsed bool
 
+	// Set by MarkCatchingUp and cleared by Reset:
+	// the mirror answered this round's entrance with an already committed header,
+	// so the only thing happening in this round is the finalization of that header,
+	// which may have been committed in a different round than the one we entered.
+	CatchingUp bool
+
 	AssertEnv gassert.Env
 }
 
@@ -103,6 +109,7 @@ func (rlc *RoundLifecycle) Reset(ctx context.Context, h uint64, r uint32) {
 
 	rlc.HeightCommitted = make(chan struct{})
 	rlc.CommitWaitElapsed = false
+	rlc.CatchingUp = false
 
 	// The hashes may have been cleared already in some circumstances,
 	// but a second clear won't hurt.
@@ -117,6 +124,7 @@ func (rlc *RoundLifecycle) MarkCatchingUp() {
 	rlc.PrevoteHashCh = nil
 	rlc.PrecommitHashCh = nil
 	rlc.CommitWaitElapsed = true
+	rlc.CatchingUp = true
 }
 
 func (rlc RoundLifecycle) IsReplaying() bool {
